@@ -14,6 +14,11 @@ AUDITED = [
      "C09.inb: forwarded from push_pdu (see above): offset + 12 <= message length", "bookmark"),
     ("<auth::AuthKey as auth::SnmpAuth>::as_localized", "requires[len(a2) == KS]",
      "enum_dispatch forwarding arm: AuthKey::as_key_type compares key.len() with self.get_key_size() of the same variant first", "keysize"),
+    ("auth::AuthKey::as_key_type", "requires[len(a2) >= 1]",
+     "as_password is reached only past the non-empty test of the password when the validity of the key is computed in one match and the "
+     "installer chosen in another (decided per key-type cell on the CFG by the validator; `num` joins the arms in between)", "keysize"),
+    ("auth::AuthKey::as_key_type", "requires[len(a2) == KS]",
+     "as_master / as_localized are reached only past key.len() == get_key_size() (same validator)", "keysize"),
     ("<auth::AuthKey as auth::SnmpAuth>::localize", "requires[len(a4) == KS]",
      "enum_dispatch forwarding arm: out is [0; KS] in as_master / vec![0; get_key_size()] in util", "keysize"),
     ("<auth::AuthKey as auth::SnmpAuth>::password_to_master", "requires[len(a3) == KS]",
@@ -183,28 +188,59 @@ def v_keysize(ctx):
     body = facts.body("auth::AuthKey::as_key_type")
     if body is None:
         return False, "AuthKey::as_key_type not found"
-    prov = flow.Prov(body)
-    gs = flow.guards(body, prov)
-    for meth in ("as_master", "as_localized"):
-        calls = [b.idx for b in body.calls() if (callee_path(b.term) or "").endswith("SnmpAuth>::" + meth)]
-        if not calls:
-            return False, "call of %s not found" % meth
-        edges = set()
-        for g in gs:
-            ea = flow.eq_atom(g)
-            if not ea:
+    prov0 = flow.Prov(body)
+    # the key type is `alg & KT_TYPE_MASK`: the function is read once per value that a match on it distinguishes, so that a
+    # validity flag computed in one match and the installer chosen in a second match on the same value stay correlated
+    from .. import cells as _cells
+
+    def is_kt(t):
+        return t[0] == "bin" and t[1] == "BitAnd" and ((t[2] == ("arg", 2) and t[3][0] == "const") or (t[3] == ("arg", 2) and t[2][0] == "const"))
+    vals = set()
+    for blk in body.live_blocks():
+        t = blk.term
+        if t and t["k"] == "switch" and is_kt(prov0.operand(t["discr"])):
+            vals |= {v for v, _ in t["targets"]}
+    cellsv = sorted(vals) + [None] if vals else [None]
+    seen_meth = set()
+    for cv in cellsv:
+        def ev(t, cv=cv):
+            if cv is not None and is_kt(t):
+                return cv
+            return None
+        if cv is None and vals:
+            # the remaining values (the `_` arm): none of the listed ones
+            continue
+        blocks, _ = _cells.feasible(body, prov0, ev) if cv is not None else ({b.idx for b in body.live_blocks()}, None)
+        prov = flow.Prov(body, only_blocks=blocks) if cv is not None else prov0
+        gs = [g for g in flow.guards(body, prov) if g.block in blocks]
+        for meth in ("as_master", "as_localized"):
+            calls = [b.idx for b in body.calls() if (callee_path(b.term) or "").endswith("SnmpAuth>::" + meth) and b.idx in blocks]
+            if not calls:
                 continue
-            a, b = ea[0], ea[1]
-            for x, y in ((a, b), (b, a)):
-                if x[0] == "call" and (x[1] or "").endswith("[T]>::len") and x[2] and x[2][0] == ("arg", 3) and \
-                        y[0] == "call" and (y[1] or "").endswith("::get_key_size") and y[2] and y[2][0] == ("arg", 1):
-                    edges.add(ea[2])
-        if not edges or not cfg.must_pass(body, [0], calls, edges):
-            return False, "%s reachable without key.len() == self.get_key_size()" % meth
-    calls = [b.idx for b in body.calls() if (callee_path(b.term) or "").endswith("SnmpAuth>::as_password")]
-    ge = [g for g in gs if g.term[0] == "call" and (g.term[1] or "").endswith("[T]>::is_empty") and g.term[2] and g.term[2][0] == ("arg", 3)]
-    if not calls or not ge or not cfg.must_pass(body, [0], calls, {g.false_edge for g in ge}):
-        return False, "as_password reachable with an empty password"
+            seen_meth.add(meth)
+            edges = set()
+            for g in gs:
+                ea = flow.eq_atom(g)
+                if not ea:
+                    continue
+                a, b = ea[0], ea[1]
+                for x, y in ((a, b), (b, a)):
+                    if x[0] == "call" and (x[1] or "").endswith("[T]>::len") and x[2] and x[2][0] == ("arg", 3) and \
+                            y[0] == "call" and (y[1] or "").endswith("::get_key_size") and y[2] and y[2][0] == ("arg", 1):
+                        edges.add(ea[2])
+            if not edges or _cells.path_within(body, blocks, calls, edges) is not None:
+                return False, "%s reachable without key.len() == self.get_key_size()" % meth
+        calls = [b.idx for b in body.calls() if (callee_path(b.term) or "").endswith("SnmpAuth>::as_password") and b.idx in blocks]
+        if calls:
+            seen_meth.add("as_password")
+            ge = [g for g in gs if g.term[0] == "call" and (g.term[1] or "").endswith("[T]>::is_empty") and g.term[2] and g.term[2][0] == ("arg", 3)]
+            ne = {g.false_edge for g in ge}
+            # `valid = !key.is_empty()` stored and tested: the guard's term is then Not(is_empty(key)), normalised by guards()
+            if not ne or _cells.path_within(body, blocks, calls, ne) is not None:
+                return False, "as_password reachable with an empty password"
+    for meth in ("as_master", "as_localized", "as_password"):
+        if meth not in seen_meth:
+            return False, "call of %s not found" % meth
     return True, "as_key_type guards key sizes"
 
 
